@@ -130,7 +130,8 @@ def customTokens (env : Env) (mode seed : Nat) (pos : Pos) : List Tok :=
     | [] => if mode = 1 then [mkTok env 0 pos 0] else []
     | b :: _ =>
       let kind := if env.g.nterms > 1 then 1 + ((pos.pos * 7 + seed) % (env.g.nterms - 1)) else 0
-      [mkTok env kind pos (utf8Len b)]
+      -- mode 3: the whole rest of the input as ONE token (long tokens reach the `{:?}` of the error message)
+      [mkTok env kind pos (if mode = 3 then env.input.length - pos.pos else utf8Len b)]
 
 /-- `Lexer::next_tokens`: `StringLexer` or a user lexer -/
 def lexNext (env : Env) (ctx : Ctx) (expected : List (Nat × Bool)) : Ctx × List Tok :=
